@@ -212,11 +212,13 @@ PROPS["C15"] = dict(
     pkg="c15", level="exploration",
     technique="round-trip / validity-predicate testing: Example() of every generated schema that Check accepts must be well-formed JSON (encoding/json + own recogniser), must validate against the same schema, and for plain-JSON models must equal the printer's compact rendering",
     level_text=("Bounded exploration over four schema families (ruled plain-JSON trees, rule-free shapes with keys needing escapes, type graphs with references/or/allOf/key shortcuts/enums, and recursion "
-                "graphs with the optional self-reference first, in the middle and last among the properties). Sampled."),
+                "graphs with the optional self-reference first, in the middle and last among the properties; reference topologies incl. pure alias types), plus type objects shared between two roots that define "
+                "one referenced type differently (differential against a root built from fresh objects). Sampled."),
     level_note="trusted: encoding/json.Valid and the reference recogniser; the printer's compact example rendering",
     rule=("schemas on which Check succeeds; non-trivial = uses a user type, or, key shortcut, enum, allOf, recursion cut-off, or a key whose spelling needs escaping; distinct by printed spec"),
     assumptions=["schemas that Check rejects are discarded and counted"],
-    jobs=[job("example", "^TestExample$", (4, 16), (6000, 25000), (600, 3000))],
+    jobs=[job("example", "^TestExample$", (4, 16), (6000, 25000), (600, 3000)),
+          job("shared-type-objects", "^TestExampleSharedTypes$", (2, 8), (3000, 20000), (600, 3000))],
 )
 PROPS["C18"] = dict(
     pkg="c18", level="exploration",
